@@ -26,7 +26,7 @@ LEVEL = "proof"
 TECHNIQUE = ("Lean 4 proofs over a hand model of DOMStringHelper/DoubleSupport (doubles as exact dyadics, printf/atof as exact "
              "decimal arithmetic) with constants regenerated from the source + correspondence run against the real library "
              "(plain and ASan/UBSan) on bit patterns and strings, judged by an independent exact-arithmetic oracle")
-LEVEL_TEXT = ("Machine-checked (Lean 4, 32 audited theorems in Props/C18.lean) over a hand model of DOMStringHelper/DoubleSupport whose "
+LEVEL_TEXT = ("Machine-checked (Lean 4, 33 audited theorems in Props/C18.lean) over a hand model of DOMStringHelper/DoubleSupport whose "
               "constants and code variants are regenerated from the source on every run: (1) for every string the doValidate state "
               "machine accepts exactly the derivations of ws* '-'? Number ws* (validate_iff_grammar); number(s) = nearest double on "
               "the atof path and, with the repaired fast path, on the integer fast path including the sign of zero "
@@ -41,7 +41,10 @@ LEVEL_TEXT = ("Machine-checked (Lean 4, 32 audited theorems in Props/C18.lean) o
               "ceiling equal XPath 4.4 for every finite double and the repaired round equals it for every double "
               "(floor_spec, ceiling_spec, round_fixed_spec, round_spec_generated). Deviations of the earlier code forms are kept as "
               "counterexample theorems about those forms. Tie: translator + correspondence (library and ASan/UBSan builds vs Lean "
-              "driver vs exact-arithmetic oracle).")
+              "driver vs exact-arithmetic oracle), and an engine stream: the same functions evaluated through XSLT in every context "
+              "(printed, operand, number() argument, comparison, predicate, variable bound after equal-but-not-identical values "
+              "were dropped in the same transformation) against the model; XNumber::set / XString::set proved to assign "
+              "unconditionally (recycled_objects_take_the_new_value).")
 LEVEL_NOTE = ("Trusted: Lean kernel; axioms propext/Classical.choice/Quot.sound only; translate/c18_number_consts.py (regex recognition "
               "of the transcribed forms: printf table, buffer sizes, thresholds, round variant, fast-path variant, cast guard, "
               "formatSmallNumber); the hand transcription (validated by the correspondence run on ~34k quick / 1.8M thorough requests, "
@@ -85,6 +88,7 @@ THEOREMS = [P + n for n in (
     "round_fixed_spec",
     "round_spec_generated",
     "toDouble_fast_path_fixed_spec",
+    "recycled_objects_take_the_new_value",
     "round_spec_counterexample_half_ulp",
     "round_spec_counterexample_big_odd",
     "round_spec_counterexample_negative_zero",
@@ -355,6 +359,7 @@ def run(ctx):
     ctx.assumptions += ["C locale decimal point", "IEEE-754 binary64, round-to-nearest mode"]
     ctx.build("hooks")
     ctx.translate("c18_number_consts")
+    ctx.translate("c18_recycle")
     ok = ctx.lean("XalanModel.Props.C18", THEOREMS, extra_targets=["xm_c18"])
     model = ctx.exe("xm_c18")
     plain, san = harnesses()
@@ -477,6 +482,7 @@ def run(ctx):
         hit = [w for w in wit]
         ctx.extra["buffer_bound"]["note"] = "bound fails for the current constants; witnesses run under ASan: %s" % hit
     ctx.extra["requests"] = len(stream)
+    engine_stream(ctx, r, san, model, work, 320 if not ctx.thorough else 6000)
 
 
 def ask(san, work, reqs, tag):
@@ -515,6 +521,178 @@ def glue(ctx, san, work, xfollow):
                 j = judge(meta, qq, rep)
                 if j:
                     ctx.fail(j[0], j[1] + " (reached through " + q.split(" ")[1] + "(number(…)) in the XPath evaluator)", {"request": qq, "impl": rep})
+
+
+
+# ---------------------------------------------------------------- the same functions observed THROUGH THE ENGINE (XSLT)
+
+ENGINE_FN = {"id": "number('%s')", "round": "round(number('%s'))", "floor": "floor(number('%s'))",
+             "ceiling": "ceiling(number('%s'))", "neg": "-number('%s')"}
+ENGINE_SAFE = set("0123456789.-+eEx ")
+ENGINE_CORPUS = ["-0.2", "0.2", "-0", "0", "-0.5", "0.5", "1.2", "-1.5", "2.5", "-2.5", "x", "", "1", "2", "3", "3.5", "0.49999999999999994",
+                 "-0.49999999999999994", "4503599627370497", "-0.0", "1e5", "-.3", " 12 ", "123456789", "1234567890", "0.1", "-7.000001"]
+
+
+def engine_string(s):
+    """XML attribute value normalisation turns tab/CR/LF into spaces; do it up front so model and engine see the same string"""
+    return "".join(" " if c in "\t\r\n" else c for c in s)
+
+
+def engine_ok(s):
+    if len(s) > 60 or any(c not in ENGINE_SAFE for c in s):
+        return False
+    v = spec_todbl(s)
+    return v != v or abs(v) < 1e60
+
+
+def inv_expect(y):
+    if y != y:
+        return "NaN"
+    if y == 0:
+        return "-Infinity" if math.copysign(1.0, y) < 0 else "Infinity"
+    if math.isinf(y):
+        return "0"
+    return None
+
+
+def engine_expect(y, t):
+    """expected output of every context for the value y whose string() is t (t None: judge printed values separately)"""
+    b = lambda v: "true" if v else "false"
+    return {"a": t, "ai": inv_expect(y), "s": t, "b": t, "bi": inv_expect(y), "c": t, "ci": inv_expect(y),
+            "d1": b(y == y), "d2": b(y < 0), "d3": b(y > 0),
+            "e1": "1" if y in (1.0, 2.0, 3.0) else "0", "e2": "1" if y > 0 else "0", "e3": "1" if (y == y and y != 0) else "",
+            "f": t, "fi": inv_expect(y), "fb": t}
+
+
+PRINTED = ("a", "s", "b", "c", "f", "fb")
+
+
+def churn_expr(y, t):
+    """an expression whose value is equal to y under == (or, for NaN, of the same class) but not identical to it"""
+    if y != y:
+        return "number('x')"
+    if y == 0:
+        return "(1 - 1)" if math.copysign(1.0, y) < 0 else "(0 * -1)"
+    if math.isinf(y):
+        return "(1 div 0)" if y > 0 else "(-1 div 0)"
+    return "number('%s')" % t
+
+
+def engine_sheet(items):
+    """items: list of (k, F, churn)"""
+    out = ['<xsl:stylesheet version="1.0" xmlns:xsl="http://www.w3.org/1999/XSL/Transform"><xsl:output method="text"/>'
+           '<xsl:template match="/">']
+
+    def line(tag, sel):
+        out.append('<xsl:text>&#10;%s=</xsl:text><xsl:value-of select="%s"/>' % (tag, sel))
+    for k, F, churn in items:
+        F = F.replace("&", "&amp;").replace("<", "&lt;").replace('"', "&quot;")
+        line("%d.a" % k, F)
+        line("%d.ai" % k, "1 div %s" % F)
+        line("%d.s" % k, "concat('', %s)" % F)
+        line("%d.b" % k, "%s * 1" % F)
+        line("%d.bi" % k, "1 div (%s * 1)" % F)
+        line("%d.c" % k, "number(%s)" % F)
+        line("%d.ci" % k, "1 div number(%s)" % F)
+        line("%d.d1" % k, "%s = %s" % (F, F))
+        line("%d.d2" % k, "%s &lt; 0" % F)
+        line("%d.d3" % k, "%s &gt; 0" % F)
+        line("%d.e1" % k, "count(/r/e[%s])" % F)
+        line("%d.e2" % k, "count(/r[%s &gt; 0])" % F)
+        out.append('<xsl:text>&#10;%d.e3=</xsl:text><xsl:if test="%s">1</xsl:if>' % (k, F))
+        # create and drop values equal-but-not-identical to the one bound next: recycled XNumber/XString objects
+        out.append('<xsl:if test="concat(%s, %s, string(%s)) = \'q\'">q</xsl:if>' % (churn, churn, churn))
+        out.append('<xsl:variable name="v%d" select="%s"/>' % (k, F))
+        line("%d.f" % k, "$v%d" % k)
+        line("%d.fi" % k, "1 div $v%d" % k)
+        line("%d.fb" % k, "$v%d * 1" % k)
+    out.append('<xsl:text>&#10;</xsl:text></xsl:template></xsl:stylesheet>')
+    return "".join(out)
+
+
+def engine_stream(ctx, r, san, model, work, n_items, batch=40):
+    cases = []
+    for s in ENGINE_CORPUS:
+        for fn in ("round", "floor", "ceiling", "id", "neg"):
+            cases.append((fn, s))
+    tries = 0
+    while len(cases) < n_items and tries < n_items * 20:
+        tries += 1
+        if r.chance(1, 2):
+            # small magnitudes around the rounding boundaries, both signs, both zeros
+            n = r.choice([0, 0, 1, 2, 3, 4, 7, 12, r.below(1000)])
+            f = r.choice(["", ".0", ".2", ".5", ".50000000000000001", ".49999999999999994", ".7", ".999", ".000001"])
+            s = ("-" if r.chance(1, 2) else "") + str(n) + f
+        else:
+            s, _ = G.gen_string(r)
+        s = engine_string(s)
+        if engine_ok(s):
+            cases.append((r.choice(["round", "floor", "ceiling", "id", "neg"]), s))
+    # model: y and string(y)
+    req = os.path.join(work, "c18_engine_model.req")
+    with open(req, "w") as f:
+        f.write("\n".join("xeval %s %s" % (fn, G.units(s)) for fn, s in cases) + "\n")
+    rc, out = common.sh([model], inp=open(req, "rb").read())
+    mrep = out.split("\n")
+    sheets, metas = [], []
+    for i in range(0, len(cases), batch):
+        items = []
+        for k, (fn, s) in enumerate(cases[i:i + batch]):
+            bits, _, t = mrep[i + k].partition(" ")
+            y = float("nan") if bits == NAN else G.of_bits(int(bits, 16))
+            items.append((k, ENGINE_FN[fn] % s, churn_expr(y, t)))
+        sheets.append("xslt " + G.units(engine_sheet(items)))
+        metas.append(cases[i:i + batch])
+    il = ask(san, work, sheets, "engine")
+    agree, nfail = True, 0
+    for bi, (rep, meta) in enumerate(zip(il, metas)):
+        got = {}
+        if rep.startswith("ok:"):
+            for ln in rep[3:].split("\\u000a"):
+                tag, sep, val = ln.partition("=")
+                if sep:
+                    got[tag] = val.replace("\\u0020", " ")
+        for k, (fn, s) in enumerate(meta):
+            idx = bi * batch + k
+            bits, _, t = mrep[idx].partition(" ")
+            y_model = float("nan") if bits == NAN else G.of_bits(int(bits, 16))
+            y_spec = {"id": lambda v: v, "round": spec_round, "floor": spec_floor, "ceiling": spec_ceil, "neg": lambda v: -v}[fn](spec_todbl(s))
+            em = engine_expect(y_model, t)
+            es = engine_expect(y_spec, None)
+            for c in em:
+                ctx.case(nontrivial_key="engine %s %s %s" % (c, fn, s), cls="engine:" + c,
+                         sample=["engine %s %s(%r)" % (c, fn, s), got.get("%d.%s" % (k, c))] if idx == 7 and c == "bi" else None)
+                val = got.get("%d.%s" % (k, c))
+                if val is None:
+                    ctx.fail("engine.%s[%s]: %r" % (c, fn, s), "no output for this context: %s" % rep[:200], {"request": sheets[bi][:200], "case": [fn, s, c]})
+                    nfail += 1
+                    continue
+                # the property on the engine's output
+                if c in PRINTED:
+                    j = judge_tostr(y_spec, "ok:" + val)
+                else:
+                    j = None if (es[c] is None or es[c] == val) else ("x", "got %r, specified %r" % (val, es[c]))
+                if j:
+                    nfail += 1
+                    if c in PRINTED and val == t:
+                        # the engine printed what the direct conversion prints: the deviation is the direct function's (same key)
+                        ctx.fail(j[0], j[1] + " (through the XSLT engine, context %s of %s(number(%r)))" % (c, fn, s),
+                                 {"request": "engine %s %s %s" % (c, fn, G.units(s)), "impl": val})
+                    else:
+                        sess = {"session": sheets[bi], "tag": "%d.%s" % (k, c)} if nfail <= 5 else {}
+                        ctx.fail("engine.%s[%s]: %r" % (c, fn, s),
+                                 "%s(number(%r)) observed in context %s gives %r; XPath specifies %s" % (
+                                     fn, s, c, val, es[c] if c not in PRINTED else "string(%r)" % y_spec),
+                                 dict({"request": "engine %s %s %s" % (c, fn, G.units(s)), "impl": val, "model": em[c]}, **sess))
+                # engine = model
+                if em[c] is not None and val != em[c]:
+                    agree = False
+                    ctx.extra.setdefault("engine_disagreements", []).append({"case": [fn, s, c], "engine": val, "model": em[c]})
+    ctx.oblige("correspondence: floor/ceiling/round/number/unary minus observed through the XSLT engine in every context "
+               "(printed, string argument, arithmetic operand, number() argument, comparison, predicate, test, variable after "
+               "recycling) = Lean model", "correspondence", agree and len(il) == len(sheets) and all(x.startswith("ok:") for x in il),
+               str(ctx.extra.get("engine_disagreements", [])[:3]) + " " + str([x[:200] for x in il if not x.startswith("ok:")][:1]))
+    ctx.extra["engine_cases"] = len(cases)
 
 
 def neighbourhood(ctx, san, work, disagree):
@@ -557,6 +735,7 @@ def replay(ctx, path):
     d = json.load(open(path))
     ctx.build("hooks")
     ctx.translate("c18_number_consts")
+    ctx.translate("c18_recycle")
     common.lake_build(["xm_c18"])
     model = ctx.exe("xm_c18")
     plain, san = harnesses()
@@ -570,6 +749,32 @@ def replay(ctx, path):
     if not reqs:
         print("replay file names broken obligations only:", json.dumps(d.get("broken_obligations"), indent=1)[:3000])
         return 1
+    bad_engine = 0
+    sessions = {}
+    for f in ([d["first"]] if "first" in d else []) + d.get("all", [])[:20]:
+        if isinstance(f.get("input"), dict) and "session" in f["input"]:
+            sessions[f["input"]["request"]] = (f["input"]["session"], f["input"]["tag"])
+    for q in [x for x in reqs if x.startswith("engine ")]:
+        _, c, fn, arg = q.split(" ", 3)
+        sx = "".join(chr(int(arg[k:k + 4], 16)) for k in range(0, len(arg), 4)) if arg != "-" else ""
+        rc, out = common.sh([model], inp=("xeval %s %s\n" % (fn, arg)).encode())
+        bits, _, t = out.strip().partition(" ")
+        y = float("nan") if bits == NAN else G.of_bits(int(bits, 16))
+        # the recycled objects depend on what the same transformation evaluated before: re-run the recorded session
+        sheet, tag = sessions.get(q, ("xslt " + G.units(engine_sheet([(0, ENGINE_FN[fn] % sx, churn_expr(y, t))])), "0." + c))
+        rep = ask(san, work, [sheet], "replay_engine")[0]
+        got = dict(ln.partition("=")[::2] for ln in rep[3:].split("\\u000a") if "=" in ln)
+        val = got.get(tag)
+        y_spec = {"id": lambda v: v, "round": spec_round, "floor": spec_floor, "ceiling": spec_ceil, "neg": lambda v: -v}[fn](spec_todbl(sx))
+        want = engine_expect(y_spec, None)[c]
+        okv = (judge_tostr(y_spec, "ok:" + str(val)) is None) if c in PRINTED else (want is None or want == val)
+        print("engine context %s: %s(number(%r))" % (c, fn, sx))
+        print("  through the XSLT engine: %r   model: %r   specified: %s" % (val, engine_expect(y, t)[c], want if c not in PRINTED else "string(%r)" % y_spec))
+        print("  verdict: %s" % ("property holds" if okv else "VIOLATED"))
+        bad_engine += not okv
+    reqs = [x for x in reqs if not x.startswith("engine ")]
+    if not reqs:
+        return 1 if bad_engine else 0
     req = os.path.join(work, "c18_replay.req")
     with open(req, "w") as f:
         f.write("\n".join(reqs) + "\n")
@@ -598,4 +803,4 @@ def replay(ctx, path):
         print("  model / specification:      %s" % (ml[i] if i < len(ml) else "<none>"))
         print("  verdict: %s" % ("property holds" if j is None else "VIOLATED — " + j[1]))
         bad += j is not None
-    return 1 if bad else 0
+    return 1 if (bad or bad_engine) else 0
